@@ -19,7 +19,9 @@ Inductive bop :=
 | BGetBranch (k : bytes)
 | BBranchValid (branch : list bytes) (root k : bytes) (v : option bytes)
 | BTrieNodes
-| BWitness (p : bytes).
+| BWitness (p : bytes)
+| BRootNode                                (* the root_node property: db[root_hash] *)
+| BSetRootNode (node : bytes).             (* root_node = node: validate_is_bin_node, then _hash_and_save and re-root *)
 
 Definition oopt (o : option bytes) : obs := match o with Some v => OB v | None => ONone end.
 Definition obl (l : list bytes) : obs := OL (map OB l).
@@ -39,6 +41,12 @@ Definition bstep (t : btrie) (o : bop) : btrie * obs :=
   | BBranchValid br root k v => (t, res_obs obool (if_branch_valid K BH br root k v))
   | BTrieNodes => (t, res_obs obl (get_trie_nodes (b_db t) (b_root t)))
   | BWitness p => (t, res_obs obl (get_witness_for_key_prefix (b_db t) (b_root t) p))
+  | BRootNode => (t, res_obs OB (db_read (b_db t) (b_root t)))
+  | BSetRootNode node =>
+      match hash_and_save K BH (b_db t) node with
+      | Ok (db', h) => (mkBtrie db' h, ONone)
+      | Err e => (t, exn_obs e)
+      end
   end.
 
 Fixpoint brun (t : btrie) (ops : list bop) : list obs :=
